@@ -263,6 +263,9 @@ FILTERS = [
     "round(x) eq 2", "round(x) eq -2", "round(x) eq -1", "round(x) eq 0", "round(x) eq 1", "floor(x) eq -2", "ceiling(x) eq -1", "floor(x) eq 1",
     "ceiling(x) eq 2", "year(d) eq 2020", "month(d) eq 12", "day(d) eq 2", "hour(d) eq 10", "minute(d) eq 59", "date(d) eq 2020-01-02",
     "x gt 0.5", "x le -0.5", "x mul 2 eq 3", "x add a gt 1", "a div 2 eq 0", "a mod 2 eq 1", "a mod 2 eq -1",
+    # literals on both sides of every comparator (parameter order of bound values)
+    "a add 1 ne 2", "a mul 2 ne 4", "a add 1 eq 2", "a sub 1 lt 2", "a mul 3 le 6", "a add 2 gt 3", "a sub 2 ge -1", "1 add a ne b sub 1",
+    "not (a add 1 ne 2)", "length(s) add 1 ne 2", "2 ne a add 1", "3 lt a mul 2", "(a add 1) in (2, 3)", "s ne 'a' and a add 1 ne 2",
 ]
 
 
